@@ -141,6 +141,7 @@ func stopScenarios(c *core.Ctx, hidx int, planLen, ntx int, reps int) []stopScn 
 			add(faultSpec{Kind: "handler-err", At: j, Lock: lock, Slow: 300})
 			add(faultSpec{Kind: "cancel-handler", At: j, Lock: lock})
 			add(faultSpec{Kind: "handler-err-cancel", At: j, Lock: lock})
+			add(faultSpec{Kind: "handler-ctxerr-cancel", At: j, Lock: lock})
 		}
 		add(faultSpec{Kind: "cancel-blocked", At: j})
 		add(faultSpec{Kind: "cancel-late-packet", At: j})
